@@ -48,6 +48,10 @@ func (b *us902Band) GetPingSlotFrequency(devAddr lorawan.DevAddr, beaconTime tim
 }
 
 func (b *us902Band) GetRX1ChannelIndexForUplinkChannelIndex(uplinkChannel int) (int, error) {
+	if uplinkChannel < 0 {
+		return 0, errors.New("lorawan/band: invalid channel")
+	}
+
 	return uplinkChannel % 8, nil
 }
 
